@@ -191,6 +191,12 @@ def gen(tier, seed):
         data = bytes(rnd.getrandbits(8) for _ in range(rnd.randrange(0, 70)))
         cases.append("b64enc\t%s" % (hx(data) if data else "-"))
         dist["JSON-encode form"] += 1
+    for n in (400, 500, 505, 510, 511, 512, 513, 520, 600, 1023, 1024, 1025, 4096, 5000) + ((70000,) if tier != "quick" else ()):
+        # documents around and beyond every plausible internal buffer size: {"kid":"xxxx..."} of exactly n octets when dumped
+        doc = '{"kid":"%s"}' % ("x" * (n - 10))
+        cases.append("b64dump\t%s" % doc)
+        cases.append("b64load\t%s" % jstr(py_enc(doc.encode())))
+        dist["JSON-dump / load form: large documents"] += 2
     for v in ('{"b":1,"a":[true,null,"x"]}', '[]', '{}', '"str"', '5', '{"k":"\\u0000"}'):
         cases.append("b64dump\t%s" % v)
         dist["JSON-dump form"] += 1
